@@ -451,11 +451,20 @@ def _machine_worker(args):
         msg = str(e)
         sig = msg.split("|")[0].strip()[:120] if msg else "assertion"
         res.failures.append((sig, msg[:600], {"trace": acc["trace"]}))
-    except hypothesis.errors.Flaky as e:
-        # the rules draw nothing that depends on the code under test, so a history whose outcome changes between two executions in one
-        # process means the code keeps state outside the objects the history creates
-        res.failures.append(("history: the same call history behaves differently when executed again in the same process",
-                             (type(e).__name__ + ": " + str(e))[:600], {"trace": acc["trace"]}))
+    except Exception as e:  # noqa
+        # an exception raised inside the code under test during a rule (innermost frames in tlexport) is a failing history, anything
+        # else is a harness error
+        import traceback
+        frames = traceback.extract_tb(e.__traceback__)
+        inner = [f for f in frames if "/tlexport/" in f.filename]
+        if isinstance(e, hypothesis.errors.Flaky) or not inner or not (frames and "/tlexport/" in frames[-1].filename):
+            if not isinstance(e, hypothesis.errors.Flaky):
+                raise
+            res.failures.append(("history: the same call history behaves differently when executed again in the same process",
+                                 (type(e).__name__ + ": " + str(e))[:600], {"trace": acc["trace"]}))
+        else:
+            res.failures.append((f"history: exception {type(e).__name__} in {os.path.basename(inner[-1].filename)}:{inner[-1].name}",
+                                 str(e)[:600], {"trace": acc["trace"]}))
     res.evaluations = acc["runs"]
     res.nontrivial_keys = acc["nontrivial"]
     res.labels = acc["labels"]
